@@ -383,6 +383,63 @@ let run_eng_line (line : string) (spec : string) (ad : string) (flags : string) 
           (String.split_on_char '|' steps) in
     "new=1 r=" ^ String.concat "|" outs
 
+(* ---------- engine: path matchers (C15 / C06) ---------- *)
+(* a pattern token is either percent-encoded text or @<segs> with segs =
+   comma-separated L.<word> | N.<name> | S, rendered by the Gallina printers *)
+let segs_of (s : string) : seg list =
+  if s = "" then [] else
+    List.map (fun t ->
+        if t = "S" then SStar
+        else match String.sub t 0 2, String.sub t 2 (String.length t - 2) with
+          | "L.", w -> SLit (dec w) | "N.", n -> SNamed (dec n) | _ -> failwith "seg") (String.split_on_char ',' s)
+let brace_style fn = (fn = "km3" || fn = "kg3" || fn = "km4" || fn = "km5")
+let pattern_of fn (tok : string) : char list * seg list option =
+  if String.length tok > 0 && tok.[0] = '@' then
+    let p = segs_of (String.sub tok 1 (String.length tok - 1)) in
+    ((if brace_style fn then render3 p else render2 p), Some p)
+  else (dec tok, None)
+let ob = function Some true -> "1" | Some false -> "0" | None -> "U"
+let ot = function Some t -> "t." ^ enc t | None -> "U"
+let run_pm fn k pat rest =
+  let k = dec k in
+  let (p, _) = pattern_of fn pat in
+  match fn, rest with
+  | "km", [] -> b01 (key_match k p)
+  | "kg", [] -> "t." ^ enc (key_get k p)
+  | "km2", [] -> ob (key_match2 k p)
+  | "kg2", [v] -> ot (key_get2 k p (dec v))
+  | "km3", [] -> ob (key_match3 k p)
+  | "kg3", [v] -> ot (key_get3 k p (dec v))
+  | "km4", [] -> ob (key_match4 k p)
+  | "km5", [] -> ob (key_match5 k p)
+  | "rm", [] -> ob (regex_match_words k p)
+  | _ -> failwith "pm"
+(* the documented meaning, independent of any regular expression *)
+let spec_pm fn k pat rest : string option =
+  let k = dec k in
+  match pattern_of fn pat with
+  | (_, Some p) when grammar p ->
+    (match fn, rest with
+     | ("km2" | "km3"), [] -> Some (b01 (spec_km p k))
+     | "km5", [] -> Some (b01 (spec_km5 p k))
+     | "km4", [] -> Some (b01 (spec_km4 p k))
+     | ("kg2" | "kg3"), [v] -> Some ("t." ^ enc (spec_get p k (dec v)))
+     | _ -> None)
+  | (ptxt, _) ->
+    (match fn, rest with
+     | "km", [] -> let (pre, found) = before_star ptxt in
+       Some (b01 (if found then is_prefix pre k else k = ptxt))
+     | "kg", [] -> let (pre, found) = before_star ptxt in
+       Some ("t." ^ enc (if found && is_prefix pre k && List.length k > List.length pre
+                         then List.filteri (fun i _ -> i >= List.length pre) k else []))
+     | _ -> None)
+let prep_pm (toks : string list) : string =
+  match toks with
+  | "pm" :: fn :: k :: pat :: rest ->
+    let (p, _) = pattern_of fn pat in
+    String.concat " " ("pm" :: fn :: k :: enc p :: rest)
+  | _ -> String.concat " " toks
+
 (* ---------- property predicates on engine traces ---------- *)
 let cvprop = try Sys.getenv "CVPROP" with Not_found -> ""
 
@@ -461,6 +518,7 @@ let run_case (line : string) (toks : string list) : string =
     (match new_stream (dec e) (nat_of_int (int_of_string c)) with
      | Some _ -> "ok" | None -> "PANIC")
   | ["rm"; maxd; ops; qs] -> run_rm maxd ops qs
+  | "pm" :: fn :: k :: pat :: rest -> run_pm fn k pat rest
   | _ -> "?unknown-case"
 
 let pred_case (line : string) (toks : string list) (impl : string) : string =
@@ -476,6 +534,10 @@ let pred_case (line : string) (toks : string list) (impl : string) : string =
       | Some _ -> "ok" | None -> "PANIC" in
     b01 (impl = exp)
   | ["rm"; maxd; ops; qs] -> (try b01 (pred_rm maxd ops qs impl) with _ -> "0")
+  | "pm" :: fn :: k :: pat :: rest ->
+    (* totality for every request-side key; documented meaning inside the grammar *)
+    if impl = "PANIC" || impl = "HANG" || impl = "ABORT" then "0"
+    else (match spec_pm fn k pat rest with Some exp -> b01 (impl = exp) | None -> "-")
   | _ -> "-"
 
 let read_lines f =
@@ -495,7 +557,8 @@ let () =
         output_string oc r; output_char oc '\n') (read_lines f)
   | [_; "prep"; f] ->
     List.iter (fun l ->
-        let r = try prep_line l with e -> "?exn:" ^ Printexc.to_string e in
+        let r = try (if String.length l > 3 && String.sub l 0 3 = "pm " then prep_pm (toks_of l) else prep_line l)
+          with e -> "?exn:" ^ Printexc.to_string e in
         print_string r; print_char '\n') (read_lines f)
   | [_; "pred"; f; g] ->
     let cs = read_lines f and os = read_lines g in
